@@ -359,11 +359,20 @@ def tup(s):
     return s
 
 
+_PKG_OBJS = {}
+
+
 def rxn_to_pkg(r):
-    mode, rxn = r
-    rxn = dict(rxn)
-    rxn["structs"] = [tup(s) for s in rxn["structs"]]
-    return (mode, rxn)
+    """The package-format reaction object of r.  Created ONCE per reaction and handed to
+    the package again on every re-add, as a user who keeps one reaction list does: a
+    reaction dict the package scribbles on must not change what a later add means."""
+    key = id(r)
+    if key not in _PKG_OBJS or _PKG_OBJS[key][0] is not r:
+        mode, rxn = r
+        rxn = dict(rxn)
+        rxn["structs"] = [tup(s) for s in rxn["structs"]]
+        _PKG_OBJS[key] = (r, (mode, rxn))
+    return _PKG_OBJS[key][1]
 
 
 class Ref:
@@ -482,6 +491,7 @@ def exec_history(hist, workdir, collect=None, light=False):
     viol = []
     stats = Counter()
     dg = Digest()
+    _PKG_OBJS.clear()
     rp = {"property": PROP, "engine": "gphist", "case": {"kind": "history", "hist": hist}}
 
     def V(key, detail):
